@@ -246,6 +246,86 @@ Proof.
 Qed.
 End Q.
 
+(* ------------------------------------------------------------------ functions *)
+Lemma ty_first t r : exists s r', toks (l_ty t) ++ r = TId s :: r'.
+Proof. destruct t; cbn; eauto. Qed.
+
+Section R.
+Variable c : tcfg.
+Variable N : nat.
+
+Definition param_l (p : ty * string) : list ltok := l_ty (fst p) ++ [LSp; K (snd p)].
+Lemma toks_param p : toks (param_l p) = toks (l_ty (fst p)) ++ [TId (snd p)].
+Proof. unfold param_l. rewrite toks_app. reflexivity. Qed.
+
+Lemma parse_params_ok ps : forall fuel rest, (List.length ps < fuel)%nat ->
+  parse_params fuel (toks (join_comma (map param_l ps)) ++ TOp ")" :: rest) = Ok (ps, TOp ")" :: rest).
+Proof.
+  induction ps as [|[t n] ps IH]; intros fuel rest Hf.
+  - destruct fuel; [cbn in Hf; lia|]. reflexivity.
+  - destruct fuel; [cbn in Hf; lia|]. cbn [map]. rewrite toks_join_comma, toks_param. cbn [fst snd].
+    rewrite <- !app_assoc. cbn [parse_params].
+    destruct (ty_first t ([TId n] ++ flat_map (fun y => TOp "," :: toks y) (map param_l ps) ++ TOp ")" :: rest))
+      as (s & r' & E). rewrite E. change (peek_is ")" (TId s :: r')) with false. cbv iota. rewrite <- E.
+    rewrite parse_type_ok. cbn [bind app parse_id].
+    destruct ps as [|q ps'].
+    + reflexivity.
+    + cbn [map flat_map app]. change (peek_is "," (TOp "," :: _)) with true. cbv iota.
+      cbn [consume_op String.eqb Ascii.eqb Bool.eqb bind].
+      specialize (IH fuel rest). cbn [map] in IH. rewrite toks_join_comma in IH.
+      rewrite IH by (cbn in Hf |- *; lia). reflexivity.
+Qed.
+
+Definition rfunc_ok (f : rfunc) : Prop :=
+  (List.length (rf_params f) < N)%nat /\ (List.length (rf_blocks f) < N)%nat /\
+  forall k, In k (rf_blocks f) -> rblock_ok c N k.
+
+Definition block_toks (k : rblock) : list token := toks (l_block k).
+Lemma toks_func f :
+  toks (l_func f) =
+  TId (binding_name (rf_binding f))
+  :: match rf_ret f with Some t => TId "function" :: toks (l_ty t) | None => [TId "procedure"] end
+  ++ TId (rf_name f) :: TOp "(" :: toks (join_comma (map param_l (rf_params f)))
+  ++ TOp ")" :: TOp "{" :: flat_map block_toks (rf_blocks f) ++ [TOp "}"].
+Proof.
+  unfold l_func. rewrite !toks_app, toks_flat_map. destruct (rf_ret f); rewrite ?toks_app; cbn [toks flat_map app];
+    rewrite <- ?app_assoc; reflexivity.
+Qed.
+Lemma block_first k r : exists s r', block_toks k ++ r = TId s :: r'.
+Proof. unfold block_toks. rewrite toks_block. cbn. eauto. Qed.
+
+Lemma func_body_ok b ret name ps bl rest :
+  (List.length ps < N)%nat -> (List.length bl < N)%nat -> (forall k, In k bl -> rblock_ok c N k) ->
+  ('(ps0, ts) <- parse_params N (toks (join_comma (map param_l ps)) ++
+                                 TOp ")" :: TOp "{" :: flat_map block_toks bl ++ TOp "}" :: rest) ;;
+   ts0 <- consume_op ")" ts ;; ts1 <- consume_op "{" ts0 ;;
+   '(bl0, ts2) <- until_rbrace (parse_block c N) N ts1 ;;
+   ts3 <- consume_op "}" ts2 ;;
+   Ok (mk_rfunc b ret name ps0 bl0, ts3)) = Ok (mk_rfunc b ret name ps bl, rest).
+Proof.
+  intros Hp Hb Hk.
+  rewrite parse_params_ok by assumption. cbn [bind consume_op String.eqb Ascii.eqb Bool.eqb].
+  cbn. rewrite (until_rbrace_ok (parse_block c N) block_toks).
+  - reflexivity.
+  - intros y r Hy. apply block_roundtrip. now apply Hk.
+  - intros y r _. destruct (block_first y r) as (s & r' & E). rewrite E. reflexivity.
+  - assumption.
+Qed.
+
+Lemma func_roundtrip f rest : rfunc_ok f ->
+  parse_declaration c N (toks (l_func f) ++ rest) = Ok (RFunc f, rest).
+Proof.
+  intros (Hp & Hb & Hk). rewrite toks_func. destruct f as [b ret name ps bl].
+  cbn [rf_binding rf_ret rf_name rf_params rf_blocks] in *.
+  unfold parse_declaration, parse_function.
+  destruct b, ret as [t|]; cbn [binding_name app at_keyword String.eqb Ascii.eqb Bool.eqb tl bind consume_keyword parse_id];
+    cbn -[parse_params until_rbrace toks join_comma block_toks parse_type]; rewrite <- ?app_assoc;
+    try rewrite parse_type_ok; cbn -[parse_params until_rbrace toks join_comma block_toks parse_type];
+    repeat (rewrite <- ?app_assoc; cbn [app]); rewrite func_body_ok by assumption; reflexivity.
+Qed.
+End R.
+
+
 (* ------------------------------------------------------------------ refutations *)
 Open Scope Z_scope.
 Definition proc (exts : list ext) (blocks : list block) : modul :=
@@ -308,13 +388,6 @@ Lemma copyblob_refuted : wf_modul w_copyblob = true /\ text_roundtrip tcfg_fixed
 Proof. split; vm_compute; reflexivity. Qed.
 Lemma undefined_refuted : wf_modul w_undef = true /\ text_roundtrip tcfg_fixed [] w_undef = Internal KeyError.
 Proof. split; vm_compute; reflexivity. Qed.
-Lemma fwd_double_use_refuted :
-  wf_modul w_fwd_double = true /\ text_roundtrip tcfg_fixed [] w_fwd_double = Internal KeyError.
-Proof. split; vm_compute; reflexivity. Qed.
-Lemma fwd_call_args_refuted :
-  exists m', wf_modul w_fwd_call = true /\ text_roundtrip tcfg_fixed [] w_fwd_call = Ok m' /\ wf_modul m' = false.
-Proof. eexists. split; [|split]; vm_compute; reflexivity. Qed.
-
 (* ------------------------------------------------------------------ bounded whole-module theorem *)
 Definition roundtrip_prop (c : tcfg) (tab : list (Z * string)) (m : modul) : Prop :=
   wf_modul m = true /\ printable c (fr_of tab) (fp_of tab) m = true /\
@@ -354,3 +427,25 @@ Proof.
   intros tab m Hin. apply roundtrip_ok_spec.
   pose proof witnesses_fixed as H. rewrite forallb_forall in H. exact (H (tab, m) Hin).
 Qed.
+
+(* the replace_use defects of ppci/ir.py (baseline + C15 fixes; repaired in /repo meanwhile) *)
+Definition w_fwd_phi : modul :=
+  fwd [] (IConst 2 "x" I32 (CInt 3)) [IPhi 1 "y" I32 [(1%positive, Loc 2); (3%positive, Loc 2)]].
+Lemma fwd_double_use_refuted :
+  wf_modul w_fwd_double = true /\ text_roundtrip tcfg_noru [] w_fwd_double = Internal KeyError.
+Proof. split; vm_compute; reflexivity. Qed.
+Lemma fwd_double_phi_refuted :
+  wf_modul w_fwd_phi = true /\ text_roundtrip tcfg_noru [] w_fwd_phi = Internal KeyError.
+Proof. split; vm_compute; reflexivity. Qed.
+Lemma fwd_call_args_refuted :
+  exists m', wf_modul w_fwd_call = true /\ text_roundtrip tcfg_noru [] w_fwd_call = Ok m' /\ wf_modul m' = false.
+Proof. eexists. split; [|split]; vm_compute; reflexivity. Qed.
+Lemma replace_use_fixed :
+  forallb (fun m => roundtrip_ok tcfg_fixed [] m) [w_fwd_double; w_fwd_phi; w_fwd_call] = true.
+Proof. vm_compute. reflexivity. Qed.
+Lemma replace_use_roundtrip : forall m, In m [w_fwd_double; w_fwd_phi; w_fwd_call] -> roundtrip_prop tcfg_fixed [] m.
+Proof.
+  intros m Hin. apply roundtrip_ok_spec.
+  pose proof replace_use_fixed as H. rewrite forallb_forall in H. exact (H m Hin).
+Qed.
+
